@@ -13,8 +13,10 @@ EXPLANATION = (
   "constant-bounded sample of it (R1); get_table_data pads short rows to the converter count and "
   "feeds every row to every converter, stopping early only for an explicit NUM_ROWS (R2); each "
   "column converter stores exactly one value per cell on every path, conversion failures included "
-  "(R3); the column filter drops only columns with no header and no non-empty cell (R4). Not "
-  "decided: the csv module's own tokenisation, header guessing heuristics.")
+  "(R3); the column filter drops only columns with no header and no non-empty cell (R4); the file "
+  "handed to the csv reader is opened without universal-newline translation, so carriage returns "
+  "inside quoted cells survive (R5). Not decided: the csv module's own tokenisation, header "
+  "guessing heuristics.")
 
 
 def check(run, repo, tier):
@@ -23,6 +25,7 @@ def check(run, repo, tier):
   r2_table_data(run, w)
   r3_converter(run, w)
   r4_filter(run, w)
+  r5_stream(run, w)
 
 
 def _sample_names(fn):
@@ -402,6 +405,59 @@ def r4_filter(run, w):
          "only header-less, entirely empty columns are removed", ok, fi=fn.fi)
 
 
+def r5_stream(run, w):
+  R5 = run.rule("C32-R5", "the text stream handed to the csv reader is opened without newline "
+                "translation (codecs.open, or open(..., newline=''))", floor=1)
+  mod = w.repo.module("imports.import_csv")
+  n_ob = 0
+  for name, fi in sorted(mod.functions.items()):
+    fn = ifn(w, fi.qualname)
+    r = res_of(w, fn)
+    for (n, c, nm) in fn.calls():
+      if not endswith(nm, "_parse_open_file"):
+        continue
+      h = call_arg(c, 0, "file_obj")
+      if h is None:
+        continue
+      # what the handle is: `with <open call> as h`, or h = <open call>
+      opener = None
+      if isinstance(h, ast.Call):
+        opener = h
+      elif isinstance(h, ast.Name):
+        for wn in r.cfg.nodes:
+          if wn.kind == "with" and r.cfg.dominated_by(n.id, {wn.id}):
+            for it in wn.stmt.items:
+              if it.optional_vars is not None and text(it.optional_vars) == h.id and \
+                  wn.id in r.reaching(n.id, h.id)[0]:
+                opener = it.context_expr
+        if opener is None:
+          b = r.binding(n.id, h.id)
+          if b is not None:
+            opener = b[0]
+      if not isinstance(opener, ast.Call):
+        continue          # a stream supplied by the caller (parameter, in-memory buffer)
+      on = fn.name(opener) or ""
+      if on == "codecs.open":
+        ok, why = True, None
+      elif on in ("open", "io.open"):
+        mode = call_arg(opener, 1, "mode")
+        if mode is not None and isinstance(mode, ast.Constant) and "b" in str(mode.value):
+          raise AnalysisError("%s: a binary stream is handed to the csv reader" % fi.qualname)
+        nl = call_arg(opener, 5, "newline")
+        ok = isinstance(nl, ast.Constant) and nl.value == ""
+        why = None if ok else ("text-mode open() without newline='' translates \\r\\n and \\r "
+                               "inside quoted cells before the csv module sees them")
+      else:
+        continue          # some other stream factory: not decided here
+      n_ob += 1
+      run.ob(R5, fi.qualname, "with %s(...) as f: _parse_open_file(f, ...)" % on,
+             "carriage returns inside quoted cells reach the csv reader unchanged", ok,
+             witness=why, fi=fi, node=opener)
+  if not n_ob:
+    raise AnalysisError("import_csv: no place where a file is opened and handed to "
+                        "_parse_open_file was found")
+
+
 CSV = "sandbox/grist/imports/import_csv.py"
 PD = "sandbox/grist/parse_data.py"
 VARIANTS = [
@@ -426,6 +482,8 @@ VARIANTS = [
   ("converter-narrow-except", PD, """    except Exception:
       self._all_col_values.append(str(value))""", """    except ValueError:
       self._all_col_values.append(str(value))""", "C32-R3"),
+  ("universal-newlines", CSV, 'with codecs.open(file_path, mode="r", encoding=encoding, errors="custom") as f:',
+   'with open(file_path, mode="r", encoding=encoding, errors="custom") as f:', "C32-R5"),
   ("filter-drops-headerless", CSV, 'if not header and all(val == "" for val in col_data["data"]):',
    'if not header or all(val == "" for val in col_data["data"]):', "C32-R4"),
 ]
